@@ -29,13 +29,14 @@ type Req struct {
 }
 
 // Obs is what the worker observed. Class is one of
-//   ok        the call returned
-//   reported  it panicked with an issue.Reported (Code, Line, Col, Msg filled in)
-//   runtime   it panicked with a Go runtime.Error (nil dereference, index, slice, type assertion ...)
-//   error     it panicked with some other error value
-//   panic     it panicked with a non-error value
-//   timeout   it did not return within the deadline (set by the parent)
-//   crash     the worker process died (out of memory, fatal error) (set by the parent)
+//
+//	ok        the call returned
+//	reported  it panicked with an issue.Reported (Code, Line, Col, Msg filled in)
+//	runtime   it panicked with a Go runtime.Error (nil dereference, index, slice, type assertion ...)
+//	error     it panicked with some other error value
+//	panic     it panicked with a non-error value
+//	timeout   it did not return within the deadline (set by the parent)
+//	crash     the worker process died (out of memory, fatal error) (set by the parent)
 type Obs struct {
 	Class string `json:"class"`
 	Code  string `json:"code,omitempty"`
@@ -228,6 +229,20 @@ func (p *Pool) Run(reqs []Req) []Obs {
 				}
 			}()
 			for j := range jobs {
+				// once enough hangs / crashes have been pinned to single inputs the run has failed with concrete
+				// replays; the remaining batches are not run at all (each hanging batch would cost seconds)
+				mu.Lock()
+				over := p.Timeouts+p.Crashes >= maxPinned
+				if over {
+					p.Skipped += j.hi - j.lo
+				}
+				mu.Unlock()
+				if over {
+					for k := j.lo; k < j.hi; k++ {
+						res[k] = Obs{Class: "skipped", Msg: "not run: the cap of pinned hangs/crashes was reached earlier in this run"}
+					}
+					continue
+				}
 				if w == nil {
 					w = startWorker()
 				}
